@@ -42,6 +42,9 @@ def synth_mem(rng, family=None):
         # a device with column bit 11 has at least 12 address pins (A10 is skipped by columns)
         m["rowbits"] = max(m["rowbits"], m["colbits"] + 1)
     m["family"] = family
+    # a third of the multi-phase configurations pass the phases as Signals (CSR-controlled phases of the 7-series /
+    # UltraScale PHYs); drawn last so that the rest of the configuration stream is unchanged
+    m["phase_signals"] = bool(m["nphases"] > 1 and rng.random() < 0.35)
     return m
 
 
